@@ -648,5 +648,32 @@ def parseStr (s : String) : Except Pos G.Module :=
   | .error p => .error p
   | .ok ts => parseModule ts
 
+/-- `parseStr` as it is executed: the positions of the tokens are not computed, only the one
+    position an error needs (this keeps parsing linear in the length of the text) -/
+def parseStrFast (s : String) : Except Pos G.Module :=
+  let cs := s.toList
+  match Lex.lexCore (cs.length + 1) (Lex.stripBom cs) [] with
+  | .error m => .error (Lex.posOfRem cs m.rem)
+  | .ok r =>
+    match parseK (r.map (·.1)) with
+    | .ok m => .ok m
+    | .error n =>
+      .error (match r.drop (r.length - n) with
+              | [] => (1, 0)
+              | p :: _ => Lex.posOfRem cs p.2.rem)
+
+@[csimp] theorem parseStr_eq_fast : @parseStr = @parseStrFast := by
+  funext s
+  simp only [parseStr, parseStrFast, Lex.lex, Lex.lexL]
+  cases Lex.lexCore (s.toList.length + 1) (Lex.stripBom s.toList) [] with
+  | error m => rfl
+  | ok r =>
+    simp only [parseModule, List.map_map, Function.comp_def]
+    cases parseK (r.map fun x => x.1) with
+    | ok m => rfl
+    | error n =>
+      simp only [posOfRem, List.length_map, ← List.map_drop]
+      cases r.drop (r.length - n) <;> rfl
+
 end Parse
 end PyxisVerif
